@@ -6,6 +6,7 @@ replaced by a tag naming the error (and the `field` it was formatted with).
 Oracle: purity, emptiness, keys, shape and message count on the real objects.
 """
 import copy
+import re
 
 from cerberus import errors as cerr
 
@@ -113,6 +114,37 @@ def oracle(v, errs):
         tag = TagHandler()._format_message(e.field, e)
         if not node or tag not in node:
             return 'message of error %r is not in the list at its document path' % (e.document_path,)
+    # *of errors: one sub-tree per failing definition, named after the definition's own index
+    # (which field name a message is formatted with is not part of the property: the unchanged code formats the
+    # messages below an *of definition nested in another *of definition with the name of the definition node;
+    # the render port compares that choice with the model's)
+    return logic_subtrees(r1, errs)
+
+
+DEFKEY = re.compile(r'^(allof|anyof|noneof|oneof) definition (\d+)$')
+
+
+def node_at(tree, path):
+    node = tree.get(path[0])
+    for k in path[1:]:
+        node = node[-1].get(k) if node and isinstance(node[-1], dict) else None
+    return node
+
+
+def logic_subtrees(tree, errs):
+    for e in errs:
+        if e.is_logic_error:
+            node = node_at(tree, e.document_path)
+            sub = node[-1] if node and isinstance(node[-1], dict) else {}
+            have = set(k for k in sub if isinstance(k, str) and DEFKEY.match(k) and k.startswith(e.rule + ' '))
+            want = set('%s definition %d' % (e.rule, i) for i, ch in e.definitions_errors.items() if ch)
+            if have != want:
+                return ('the %s error at %r has failing definitions %r but the sub-trees %r'
+                        % (e.rule, tuple(e.document_path), sorted(want), sorted(have)))
+        elif codec.is_group(e):
+            msg = logic_subtrees(tree, e.info[0])
+            if msg:
+                return msg
     return None
 
 
